@@ -179,6 +179,27 @@ CLAIMS = {
         note=BOUNDED_NOTE + "Model family: <= 11 elements, 1..2 delegation ids; pooled delegations are not in the family.",
         technique="contracts on the real partitioning functions checked by bounded symbolic execution over the bounded graph model",
         design_ref="DESIGN.md section 3 C13"),
+    'C01': dict(category='other',
+        text="Glue: the real serialize_graph / import_graph_from_string[_direct] / import_graph_from_file[_direct] / _read_from_file "
+             "(format sniffing) / get_graph_id / extract_graph / add_graph / add_graph_direct / delete_graph source of both in-memory "
+             "back ends, and Topology.serialize / Topology.load, are executed symbolically over the bounded store model with symbolic "
+             "NodeID / Class / Type / Name / property values and edge classes; canonical content (matching by NodeID) is the same "
+             "after import for both formats and every entry point (keep id, new id, id of another graph, fresh uuid, direct, file), "
+             "GraphID kept or reassigned as asked, a second serialize + import gives the same content again, every other graph of "
+             "the store is untouched. Text level: the same postconditions are evaluated natively on the real networkx / lxml / json "
+             "pipeline over generated raw graphs with hostile strings (quotes, markup, non-ASCII, blanks, empty, digit strings) and "
+             "ints, the shipped substrate / advertisement models, a generated delegation model and an API-built slice model, "
+             "plus label markup on every node and edge, mixed-GraphID rejection and the library's own validation after import.",
+        note=BOUNDED_NOTE + "The text codecs (networkx GraphML and node-link writers/readers, json, lxml markup, temporary files) are "
+             "outside the verifier's reach: in the glue contracts they are an ASSUMED inverse pair (pyvc/iomodel.py) and "
+             "GraphML.networkx_to_neo4j an assumed summary; both assumptions are exercised natively on every run (60 generated graphs "
+             "quick / 600 thorough, seed-dependent) -- a bounded run-time check, not proof. Requires a non-empty graph with distinct "
+             "NodeIDs; carriage returns (normalised by XML parsers) and XML-illegal characters are outside the statement; the Neo4j "
+             "back end is not executed (C19 covers its statements).",
+        technique="contracts on the real serialization / import functions checked by bounded symbolic execution over the bounded "
+                  "graph model with the text codecs as an assumed inverse pair, plus the same contracts evaluated at run time on the "
+                  "real libraries over generated inputs (bounded)",
+        design_ref="DESIGN.md section 3 C01"),
     'C02': dict(category='other',
         text="Per sliver kind (node, component, service, interface, link) and PER SETTABLE PROPERTY the real *_sliver_to_graph_"
              "properties_dict / *_sliver_from_graph_properties_dict pair is executed symbolically on a named sliver carrying a typed "
